@@ -118,13 +118,15 @@ def plan():
         bootstrap.ensure()
         import coxeter.shapes as cs
 
-        B = bases.base_shapes(cs)
+        B = bases.with_zero_d(cs)
         out = []
         for cname in CLASSES:
             n = len(queries(cs, getattr(cs, cname)))
             for bi in range(len(B[cname])):
                 for qi in range(n):
-                    out.append((cname, bi, qi))
+                    # (third field of the quick tier's filter: the first base of each class and the variant whose scalar
+                    # parameters are zero-dimensional arrays)
+                    out.append((cname, bi, qi, bi == 0 or B[cname][bi][0] == bases.ZERO_D))
         _plan = out
     return _plan
 
@@ -132,15 +134,15 @@ def plan():
 def ncases(tier):
     P = plan()
     if tier == "quick":
-        return sum(1 for (c, b, q) in P if b == 0)
+        return sum(1 for p in P if p[3])
     return len(P)
 
 
 def select(tier, i):
     P = plan()
     if tier == "quick":
-        P = [p for p in P if p[1] == 0]
-    return P[i]
+        P = [p for p in P if p[3]]
+    return P[i][:3]
 
 
 # ---------------------------------------------------------------------------
@@ -325,7 +327,7 @@ def setup(rec, tier):
     import coxeter.shapes as cs
 
     tmp = tempfile.mkdtemp(prefix="c16_")
-    return {"cs": cs, "B": bases.base_shapes(cs), "tmp": tmp}
+    return {"cs": cs, "B": bases.with_zero_d(cs), "tmp": tmp}
 
 
 def finish(rec, tier, state):
